@@ -156,7 +156,7 @@ func c06Script(probes []c06Probe) string {
 		case c06CtxReusedHandle:
 			// one Invoker handle (pooled or not) used for a batch whose first item strikes the fault; the host tolerates
 			// failing items, and the later items must run as if nothing had happened
-			body = fmt.Sprintf("\tf%[1]d := func(i) {\n\t\tif i == 0 {\n\t\t\t%[2]s\n\t\t}\n\t\ttry {\n\t\t\tif i == 2 { throw \"own\" }\n\t\t} catch {\n\t\t\treturn i * 100\n\t\t}\n\t\treturn i * 10\n\t}\n\tlog(\"r\", calleach(f%[1]d, 0, 1, 2, 3))\n", k, stmt)
+			body = fmt.Sprintf("\tf%[1]d := func(i) {\n\t\tif i == 0 {\n\t\t\t%[2]s\n\t\t}\n\t\ttry {\n\t\t\tif i == 2 { throw \"own\" }\n\t\t} catch {\n\t\t\treturn i * 100\n\t\t}\n\t\treturn i * 10\n\t}\n\tlog(\"rh%[1]d\", calleach(f%[1]d, 0, 1, 2, 3))\n", k, stmt)
 		case c06CtxStringsMap:
 			// any of the stdlib functions that call a script function back from Go
 			switch p.depth % 5 {
@@ -434,7 +434,17 @@ func c06Run(rc *sim.RunCtx) {
 			if probes[k].ctx == c06CtxReusedHandle {
 				// swallowed by the host as one failed item of the batch: the statement after the batch runs, the probe's
 				// catch does not
-				return count(fmt.Sprintf("c%d", k)) == 0 && count(fmt.Sprintf("f%d", k)) == 1 && count(fmt.Sprintf("a%d", k)) == 1 && count(fmt.Sprintf("b%d", k)) == 1
+				if !(count(fmt.Sprintf("c%d", k)) == 0 && count(fmt.Sprintf("f%d", k)) == 1 && count(fmt.Sprintf("a%d", k)) == 1 && count(fmt.Sprintf("b%d", k)) == 1) {
+					return false
+				}
+				// the struck item failed, every later item of the batch ran normally on the same handle
+				want := fmt.Sprintf("s:%q [s:\"err\",i:10,i:200,i:30]", fmt.Sprintf("rh%d", k))
+				for _, h := range faulted.out.Hist {
+					if strings.HasPrefix(h, fmt.Sprintf("s:%q ", fmt.Sprintf("rh%d", k))) {
+						return h == want
+					}
+				}
+				return false
 			}
 			if probes[k].ctx == c06CtxFinallyAfterOkTry && count(fmt.Sprintf("wrong%d", k)) != 0 {
 				return false
